@@ -15,25 +15,38 @@ Definition rep (s : rq_state) (t : spec_state) : Prop :=
 Lemma rep_init : rep rq_init (mkSp None None).
 Proof. split; [reflexivity|]. left. reflexivity. Qed.
 
-Theorem reexec_transmits_given ops : forall s t, rep s t -> rq_run_with unmerge_identity s ops = spec_run t ops.
+Theorem reexec_transmits_given ops : forall s t, rep s t ->
+  rq_run_with unmerge_identity reset_always s ops = spec_run t ops.
 Proof.
   induction ops as [|o r IH]; intros s t [Hc Hr]; [reflexivity|].
+  assert (SEND : forall retried,
+            exists s', rq_send_with unmerge_identity reset_always retried s =
+                       ((if retried then [spec_sent t; spec_sent t] else [spec_sent t]), s') /\ rep s' t).
+  { intros retried. unfold rq_send_with, reset_always, spec_sent. destruct (sp_req t) as [h|] eqn:E.
+    - rewrite Hr. cbn. destruct retried; eexists; (split; [reflexivity|]); (split; [exact Hc|]); rewrite E; reflexivity.
+    - assert (U : unmerge_identity (st_req s) = None) by (destruct Hr as [->|[c ->]]; reflexivity).
+      rewrite U, Hc. destruct (sp_client t) as [c|] eqn:Ec; cbn;
+        destruct retried; eexists; (split; [reflexivity|]); (split; [cbn; now rewrite Ec|]); rewrite E;
+        solve [right; eexists; reflexivity | left; reflexivity]. }
   destruct o; cbn [rq_run_with rq_step_with spec_run spec_step].
   - apply IH. split; [reflexivity|exact Hr].
   - apply IH. split; [reflexivity|exact Hr].
   - apply IH. split; [exact Hc|reflexivity].
   - apply IH. split; [exact Hc|reflexivity].
-  - unfold rq_send_with, spec_sent. destruct (sp_req t) as [h|] eqn:E.
-    + rewrite Hr. cbn. f_equal. apply IH. split; [exact Hc|]. rewrite E. reflexivity.
-    + assert (U : unmerge_identity (st_req s) = None).
-      { destruct Hr as [->|[c ->]]; reflexivity. }
-      rewrite U, Hc. destruct (sp_client t) as [c|] eqn:Ec; cbn.
-      * f_equal. apply IH. split; [cbn; now rewrite Ec|]. rewrite E. right. eexists. reflexivity.
-      * f_equal. apply IH. split; [cbn; now rewrite Ec|]. rewrite E. left. reflexivity.
+  - destruct (SEND false) as [s' [-> R]]. cbn [app]. f_equal. apply IH. exact R.
+  - destruct (SEND true) as [s' [-> R]]. cbn [app]. f_equal. f_equal. apply IH. exact R.
 Qed.
 
 Corollary reexec_from_new ops : rq_run rq_init ops = spec_run (mkSp None None) ops.
 Proof. apply reexec_transmits_given. apply rep_init. Qed.
+
+(* resetting RetryAttempt only when something had been merged (a seeded change): a request that
+   was retried on a client without common settings is never given the client's credentials again *)
+Example reset_if_merged_refuted :
+  let ops := [SendR; CBearer (bs "tok"); Send] in
+  rq_run rq_init ops = [None; None; Some (bearer_header (bs "tok"))] /\
+  rq_run_with unmerge_identity reset_if_merged rq_init ops = [None; None; None].
+Proof. split; vm_compute; reflexivity. Qed.
 
 (* comparing values instead of the slice identity loses a request-level credential that equals
    what the client had before: after the client's rotation the NEW client credential goes out *)
